@@ -7,7 +7,7 @@ import common
 from common import Check
 
 
-def run_component(prop, level, component_run, rule, floor=None, assumptions=None, bins=("aiken-run",), extra=None, argv=None, demote=None, **finish_kw):
+def run_component(prop, level, component_run, rule, floor=None, assumptions=None, bins=("aiken-run",), extra=None, argv=None, demote=None, rekey=None, **finish_kw):
     a = common.parse_args(argv if argv is not None else sys.argv[1:])
     if not a.no_build:
         common.build(list(bins))
@@ -19,6 +19,8 @@ def run_component(prop, level, component_run, rule, floor=None, assumptions=None
         iff every component `prefix|a`, `prefix|b` is known; it is then booked on the first."""
         import re
 
+        if rekey:
+            key = rekey(key)
         key = re.sub(r"(\.rs):\d+(:\d+)?", r"\1", key)
         if key in chk.known or "+" not in key:
             return key
